@@ -3,19 +3,16 @@
 package c20
 
 import (
-	"bufio"
 	"context"
 	"encoding/json"
 	"fmt"
 	"io"
-	"net"
 	"net/http"
 	"net/http/httptest"
 	"net/url"
 	"sort"
 	"strings"
 	"sync"
-	"sync/atomic"
 	"testing"
 	"time"
 	"unicode/utf8"
@@ -77,7 +74,7 @@ type KindN struct {
 }
 
 type RecvCase struct {
-	Mode  string  `json:"mode"` // keys | pair
+	Mode  string  `json:"mode"` // keys | pair (slow-body and SMTP-QUIT result handling: package notifres)
 	Kinds []KindN `json:"kinds"`
 	Fail  int     `json:"fail"` // pair: which of the two fails in flush 1
 	// observed
@@ -91,13 +88,7 @@ func allKinds() []string {
 
 func genRecv(r *vh.Rand, env vh.Env) Case {
 	rc := &RecvCase{Mode: "keys"}
-	switch r.Intn(5) {
-	case 3: // e-mail against an SMTP server that accepts the message and then drops the connection instead of answering QUIT
-		rc.Mode = "mailquit"
-		rc.Kinds = []KindN{{"email", 1}}
-	case 4: // an integration with the `timeout` option against an endpoint that sends its body 50 ms after the headers
-		rc.Mode = "slow"
-		rc.Kinds = []KindN{{vh.Pick(r, []string{"slack", "slack", "webhook"}), 1}}
+	switch r.Intn(4) {
 	case 0: // every kind once or twice
 		for _, k := range allKinds() {
 			rc.Kinds = append(rc.Kinds, KindN{k, r.Range(1, 2)})
@@ -155,12 +146,6 @@ func sink() *integSink {
 				return
 			}
 			w.WriteHeader(http.StatusOK)
-			if strings.Contains(r.URL.Path, "/slow-") { // headers now, body later
-				if f, ok := w.(http.Flusher); ok {
-					f.Flush()
-				}
-				time.Sleep(50 * time.Millisecond)
-			}
 			io.WriteString(w, "ok")
 		}))
 		theSink = s
@@ -185,64 +170,6 @@ func (s *integSink) count(path string) int {
 
 var recvSeq int
 
-// a minimal SMTP server that accepts every message and closes the connection instead of answering QUIT
-var (
-	smtpLn     net.Listener
-	smtpQueued atomic.Int64
-)
-
-func smtpSink() string {
-	if smtpLn == nil {
-		ln, err := net.Listen("tcp", "127.0.0.1:0")
-		if err != nil {
-			panic(err)
-		}
-		smtpLn = ln
-		go func() {
-			for {
-				c, err := ln.Accept()
-				if err != nil {
-					return
-				}
-				go func(c net.Conn) {
-					defer c.Close()
-					rd := bufio.NewReader(c)
-					fmt.Fprint(c, "220 sink ESMTP\r\n")
-					for {
-						line, err := rd.ReadString('\n')
-						if err != nil {
-							return
-						}
-						cmd := strings.ToUpper(strings.TrimSpace(line))
-						switch {
-						case strings.HasPrefix(cmd, "EHLO"), strings.HasPrefix(cmd, "HELO"):
-							fmt.Fprint(c, "250 sink\r\n")
-						case strings.HasPrefix(cmd, "DATA"):
-							fmt.Fprint(c, "354 go on\r\n")
-							for {
-								l2, err := rd.ReadString('\n')
-								if err != nil {
-									return
-								}
-								if l2 == ".\r\n" {
-									break
-								}
-							}
-							smtpQueued.Add(1)
-							fmt.Fprint(c, "250 queued\r\n")
-						case strings.HasPrefix(cmd, "QUIT"):
-							return // drop the connection without the 221
-						default:
-							fmt.Fprint(c, "250 ok\r\n")
-						}
-					}
-				}(c)
-			}
-		}()
-	}
-	return smtpLn.Addr().String()
-}
-
 func runRecv(t *testing.T, c *Case) result {
 	rc := c.Recv
 	var res result
@@ -256,19 +183,10 @@ func runRecv(t *testing.T, c *Case) result {
 		fmt.Fprintf(&y, "  %s_configs:\n", kn.Kind)
 		for i := 0; i < kn.N; i++ {
 			p := fmt.Sprintf("/r%d/%s-%d", recvSeq, kn.Kind, i)
-			if rc.Mode == "slow" {
-				p = fmt.Sprintf("/r%d/slow-%s-%d", recvSeq, kn.Kind, i)
-			}
 			paths[fmt.Sprintf("%s/%d", kn.Kind, i)] = p
 			body := kindBody[kn.Kind]
 			if strings.Contains(body, "%s") {
 				body = fmt.Sprintf(body, sk.srv.URL+p)
-			}
-			if rc.Mode == "slow" {
-				body = strings.TrimSuffix(body, "}") + ", timeout: 5s}"
-			}
-			if rc.Mode == "mailquit" {
-				body = strings.Replace(body, "localhost:2525", smtpSink(), 1)
 			}
 			fmt.Fprintf(&y, "  - %s\n", body)
 			expected = append(expected, vh.Pair(vh.Str(kn.Kind), vh.Z(int64(i))))
@@ -311,41 +229,6 @@ func runRecv(t *testing.T, c *Case) result {
 	res.term = vh.App("CRecvKeys", vh.List(se), vh.List(sb))
 	res.tags = append(res.tags, "mode/"+rc.Mode, fmt.Sprintf("integrations/%02d", len(integs)))
 	res.nontrivial = len(integs) >= 2
-	if rc.Mode == "mailquit" && len(integs) == 1 {
-		ctx := notify.WithGroupKey(context.Background(), fanoutGKey)
-		ctx = notify.WithReceiverName(ctx, "team")
-		ctx = notify.WithGroupLabels(ctx, toLS(map[string]string{"alertname": "Down"}))
-		ctx, cancel := context.WithTimeout(ctx, 10*time.Second)
-		defer cancel()
-		before := smtpQueued.Load()
-		al := mkAlerts([]AlertJ{{Labels: map[string]string{"alertname": "Down"}, Annots: map[string]string{}, StartOff: -int64(time.Minute)}}, time.Now())
-		retry, err := integs[0].Notify(ctx, al...)
-		queued := smtpQueued.Load() - before
-		if queued == 1 && (err != nil || retry) {
-			viol("delivered-notification-reported-as-failure", fmt.Sprintf("email: the server queued the message (250 after DATA) and dropped the connection at QUIT; Notify returned retry=%v err=%v: the mail would be sent again", retry, err))
-		}
-		if queued != 1 {
-			viol("email-not-delivered-to-healthy-server", fmt.Sprintf("messages queued: %d, err=%v", queued, err))
-		}
-		res.tags = append(res.tags, "mailquit/email")
-		return res
-	}
-	if rc.Mode == "slow" && len(integs) == 1 {
-		// a 200 whose body arrives a little after the headers is still a delivery: Notify must report success
-		ctx := notify.WithGroupKey(context.Background(), fanoutGKey)
-		ctx = notify.WithReceiverName(ctx, "team")
-		ctx = notify.WithGroupLabels(ctx, toLS(map[string]string{"alertname": "Down"}))
-		ctx, cancel := context.WithTimeout(ctx, 10*time.Second)
-		defer cancel()
-		sk.reset()
-		al := mkAlerts([]AlertJ{{Labels: map[string]string{"alertname": "Down"}, Annots: map[string]string{}, StartOff: -int64(time.Minute)}}, time.Now())
-		retry, err := integs[0].Notify(ctx, al...)
-		if err != nil || retry {
-			viol("delivered-notification-reported-as-failure", fmt.Sprintf("%s with timeout 5s: the endpoint answered 200 (body 50 ms after the headers) but Notify returned retry=%v err=%v", rc.Kinds[0].Kind, retry, err))
-		}
-		res.tags = append(res.tags, "slow/"+rc.Kinds[0].Kind)
-		return res
-	}
 	if rc.Mode != "pair" || len(integs) != 2 {
 		return res
 	}
